@@ -394,6 +394,10 @@ def install_calls():
             raise Unsupported("set() of %s" % a.k, e)
         if name == "tuple" and len(args) == 1 and args[0].k == "tuple":
             return args[0]
+        if name == "list" and len(args) == 1 and args[0].k in ("tuple", "conc"):
+            a = args[0]
+            items = a.z if a.k == "tuple" else [lift_conc(ctx, mk_conc(x), e) for x in a.z]
+            return ex.alloc_list(st, items, e)
         return base_builtin(ex, st, o, args, kwargs, e)
 
     C.builtin_call = builtin_call
@@ -403,9 +407,9 @@ def install_calls():
     def do_call(ex, st, e):
         # `set` / `tuple` / `OrderedDict` etc. are types, not builtin functions
         f = e.func
-        if isinstance(f, ast.Name) and f.id in ("set", "tuple") and f.id not in st.env:
+        if isinstance(f, ast.Name) and f.id in ("set", "tuple", "list") and f.id not in st.env:
             args = [ex.ev(st, a) for a in e.args]
-            return builtin_call(ex, st, {"set": set, "tuple": tuple}[f.id], args, {}, e)
+            return builtin_call(ex, st, {"set": set, "tuple": tuple, "list": list}[f.id], args, {}, e)
         return base_do_call(ex, st, e)
 
     C.do_call = do_call
